@@ -27,7 +27,7 @@ inductive Expect
   /-- the results satisfy `p`; exactly `raised` is newly raised -/
   | pred (descr : String) (p : List Val → Bool) (raised : Flags)
   /-- the results and the raised flags together satisfy `p` (relational observations) -/
-  | rel (descr : String) (p : List Val → Flags → Bool)
+  | rel (descr : String) (p : List Val → Flags → Flags → Bool)   -- results, incoming word, outgoing word
   /-- the property is silent; only "returns normally" is required -/
   | noPanic
   /-- not an entry point the model knows -/
@@ -133,7 +133,13 @@ def expectCore (op : String) (mode : Mode) (args : List Val) (tinyAfter : Bool :
     nanRule [decode x, decode y, decode z] fun _ =>
       -- 0·Inf with a quiet NaN addend is covered by nanRule (invalid is implementation-defined there)
       exactD (fmaD mode tinyAfter (decode x) (decode y) (decode z))
-  | "fdim", [.d x, .d y] => bin x y fun a b => exactD (fdimD mode a b)
+  | "fdim", [.d x, .d y] =>
+    -- fdim's value for non-NaN operands is outside the twenty properties: only the NaN rule (C12), a canonical result
+    -- (C13), accumulating flags (C14) and returning normally (C15) are demanded; `fdimD` documents what the code does
+    bin x y fun _ _ => .rel "a canonical encoding; bits set on entry still set"
+      (fun r fin fout => match r with
+        | [.d b] => isCanonical b && (fout ||| fin == fout)
+        | _ => false)
   | "op_add", [.d x, .d y] => dropFlags (bin x y fun a b => exactly [.d (encode (addD .rne a b).1)] 0)
   | "op_sub", [.d x, .d y] => dropFlags (bin x y fun a b => exactly [.d (encode (subD .rne a b).1)] 0)
   | "op_mul", [.d x, .d y] => dropFlags (bin x y fun a b => exactly [.d (encode (mulD .rne a b).1)] 0)
@@ -151,7 +157,7 @@ def expectCore (op : String) (mode : Mode) (args : List Val) (tinyAfter : Bool :
   | "hash_slice", _ => .noPanic
   | "hash_pair", [.d x, .d y] =>
     .rel "eq as the model says, and equal values hash equally (recording hasher, DefaultHasher, HashSet lookup)"
-      (fun r fl => match r with
+      (fun r _ fl => match r with
         | [.b e, .b h1, .b h2, .b h3] => e == eqGlue (decode x) (decode y) && (!e || (h1 && h2 && h3)) && fl == 0
         | _ => false)
   | "roundtrip_display", [.d x] => exactly [.s (format true (decode x)), .d (reparse x)] 0
@@ -269,6 +275,17 @@ def expectCore (op : String) (mode : Mode) (args : List Val) (tinyAfter : Bool :
   | "convert_from_decimal_character", [.s t] => parseE mode t
   | "from_string_ref", [.s t] => dropFlags (parseE .rne t)
   | "from_str", [.s t] => fromStrE t
+  | "twice", _ =>
+    -- the same call made from a clear status word and from the given one (C14, independent of the model):
+    -- results res0 ++ [out0] ++ res1 ++ [out1]; they must agree and out1 = in ||| out0
+    .rel "same results from a clear and from the given status word, and outgoing word = incoming ||| (word from clear)"
+      (fun r fin _ =>
+        let k := (r.length - 2) / 2
+        r.length ≥ 2 && r.length == 2 * k + 2 &&
+        r.take k == (r.drop (k + 1)).take k &&
+        (match r[k]?, r[2 * k + 1]? with
+         | some (.i o0), some (.i o1) => o0 ≥ 0 && o1 == ((fin ||| o0.toNat : Nat) : Int)
+         | _, _ => false))
   | "sum", _ => foldE true args
   | "product", _ => foldE false args
   | "compare_quiet_equal", [.d x, .d y] => cmpPred true "equal" (decode x) (decode y)
